@@ -474,7 +474,10 @@ def _spec_key(M: Model, key: ast.expr | None, items: bool) -> str | None:
                 return "lex"
             return None
 
-        return spec(key.body)
+        got = spec(key.body)
+        if got is None and M.mentions_A(key.body):
+            return "foreign"  # e.g. the length of the alias text
+        return got
     return None
 
 
@@ -494,6 +497,8 @@ def _sorted_order(M: Model, keywords, items: bool) -> str | None:
         return "desc" if r else "asc"
     if sk == "negspec":
         return "asc" if r else "desc"
+    if sk == "foreign":
+        return "foreign"
     return None
 
 
@@ -716,7 +721,37 @@ def classify_atom(M: Model, text: str, n: str, c: str, label_names: set[str]) ->
             return "proper"
         if _is_name(e.args[0], c):
             return "raw"
+    # companions of a raw prefix test: what follows the prefix
+    if isinstance(e, ast.Compare) and len(e.ops) == 1:
+        l, op, r = e.left, e.ops[0], e.comparators[0]
+        if isinstance(op, ast.Eq):
+            for a, b in ((l, r), (r, l)):
+                if _len_of(a, n) and _len_of(b, c):
+                    return "raw:self"  # same length (with the prefix test: the module itself)
+                if const_str(b) == "." and isinstance(a, ast.Subscript) and _is_name(a.value, n) and _len_of(a.slice, c):
+                    return "raw:proper"  # the character after the prefix is the separator
+                if const_str(b) == "" and _after_prefix(a, n, c):
+                    return "raw:self"
+        if isinstance(op, ast.In) and isinstance(r, (ast.Tuple, ast.List, ast.Set)) and sorted("?" if const_str(x) is None else const_str(x) for x in r.elts) == ["", "."]:
+            a = l
+            if isinstance(a, ast.Subscript) and isinstance(a.slice, ast.Slice) and _is_name(a.value, n) and a.slice.lower is not None and _len_of(a.slice.lower, c) and a.slice.upper is not None and isinstance(a.slice.upper, ast.BinOp) and isinstance(a.slice.upper.op, ast.Add) and _len_of(a.slice.upper.left, c) and isinstance(a.slice.upper.right, ast.Constant) and a.slice.upper.right.value == 1:
+                return "raw:both"
+            if isinstance(a, ast.Subscript) and isinstance(a.slice, ast.Slice) and a.slice.lower is None and isinstance(a.slice.upper, ast.Constant) and a.slice.upper.value == 1 and _after_prefix(a.value, n, c):
+                return "raw:both"
+    if isinstance(e, ast.Call) and isinstance(e.func, ast.Attribute) and e.func.attr == "startswith" and len(e.args) == 1 and const_str(e.args[0]) == "." and _after_prefix(e.func.value, n, c):
+        return "raw:proper"
+    if _after_prefix(e, n, c):
+        return "raw:not-self"  # truthiness of the remainder
     return "other"
+
+
+def _len_of(e: ast.AST, name: str) -> bool:
+    return isinstance(e, ast.Call) and isinstance(e.func, ast.Name) and e.func.id == "len" and len(e.args) == 1 and _is_name(e.args[0], name)
+
+
+def _after_prefix(e: ast.AST, n: str, c: str) -> bool:
+    """n[len(c):]"""
+    return isinstance(e, ast.Subscript) and isinstance(e.slice, ast.Slice) and _is_name(e.value, n) and e.slice.upper is None and e.slice.step is None and e.slice.lower is not None and _len_of(e.slice.lower, c)
 
 
 # =========================================================================== the rule
@@ -1106,7 +1141,15 @@ def _judge_selection(C, ev: Event, sel: Selection, label_names: set[str], has_se
         else:
             out.append(("unsure", r1, what_t, f"the condition `{_show(P)}` is not equivalent to 'the candidate has an alias'", sel.where))
     elif domain in ("keys", "items"):
-        safe = f_or([*selfs, *propers, *both])
+        # a raw prefix test is boundary-safe together with a test of what follows the prefix
+        r_self, r_proper, r_both, r_notself = by("raw:self"), by("raw:proper"), by("raw:both"), by("raw:not-self")
+        comp_self = f_or([*r_self, *r_both, *[f_not(x) for x in r_notself]])
+        comp_proper = f_or([*r_proper, *r_both])
+        guarded_raw = [f_and([rw, f_or([comp_self, comp_proper])]) for rw in raws] if (r_self or r_proper or r_both or r_notself) else []
+        safe = f_or([*selfs, *propers, *both, *guarded_raw])
+        if guarded_raw:
+            selfs = selfs + ([guarded_raw[0]] if comp_self != FALSE else [])
+            propers = propers + ([guarded_raw[0]] if comp_proper != FALSE else [])
         if others:
             out.append(("unsure", r1, what_t, f"the match condition `{_show(P)}` contains tests that are not recognised ({', '.join(o[1] for o in others)[:80]})", sel.where))
         elif raws and _sat_under(f_and([P, f_not(safe)]), env_fix):
@@ -1146,9 +1189,9 @@ def _judge_selection(C, ev: Event, sel: Selection, label_names: set[str], has_se
         disc = "last"
     if domain in ("keys", "items"):
         good = (disc == "first" and order == "desc") or (disc == "last" and order == "asc") or disc == "longest"
-        wrong = (disc == "first" and order in ("asc", "mapping")) or (disc == "last" and order in ("desc", "mapping")) or disc == "shortest"
+        wrong = (disc == "first" and order in ("asc", "mapping", "foreign")) or (disc == "last" and order in ("desc", "mapping", "foreign")) or disc == "shortest"
         how = {"first": "the first match is used", "last": "later matches overwrite earlier ones", "longest": "the longest match is selected", "shortest": "the shortest match is selected"}[disc]
-        ordtxt = {"desc": "most specific (longest) first", "asc": "least specific (shortest) first", "mapping": "in the order of the alias mapping", None: "in an order that is not recognised"}[order]
+        ordtxt = {"desc": "most specific (longest) first", "asc": "least specific (shortest) first", "mapping": "in the order of the alias mapping", "foreign": "in an order computed from the alias texts, not from the module names", None: "in an order that is not recognised"}.get(order, "in an order that is not recognised")
         if good:
             out.append(("ok", r2, what_o, f"aliased modules are tried {ordtxt}" if disc != "longest" else "the longest matching aliased module is selected", sel.where))
             out.append(("ok", r2, what_f, how, ev.node))
